@@ -494,3 +494,25 @@ func TestD24_EmptyProviderKey(t *testing.T) {
 		t.Fatalf("paths differ: empty map %v, non-empty map %v", e1, e2)
 	}
 }
+
+type d27Inner struct{ Name string }
+type d27In struct {
+	*d27Inner
+	Age int
+}
+
+// D27: a struct input whose schema key is a field promoted through a nil embedded pointer panics
+func TestD27_NilEmbeddedPointer(t *testing.T) {
+	type D struct {
+		Name string
+		Age  int
+	}
+	s := z.Struct(z.Schema{"Name": z.String(), "Age": z.Int()})
+	noPanic(t, "nil embedded pointer", func() {
+		var d D
+		s.Parse(d27In{Age: 3}, &d)
+		if d.Age != 3 || d.Name != "" {
+			t.Fatalf("got %+v", d)
+		}
+	})
+}
